@@ -2,36 +2,38 @@ package main
 
 import (
 	"fmt"
-	"io"
-	"strings"
 
+	"github.com/freeconf/yang/meta"
 	"github.com/freeconf/yang/parser"
 )
 
 func main() {
-	sets := map[string]map[string]string{
-		"8 sub identity base": {"a": `module a { namespace "a"; prefix a; include s; identity root; }`, "s": `submodule s { belongs-to a { prefix a; } identity subid { base root; } leaf l { type identityref { base root; } } }`},
-		"8b sibling submodule": {"a": `module a { namespace "a"; prefix a; include s; include s2; }`, "s": `submodule s { belongs-to a { prefix a; } identity subid { base root; } }`, "s2": `submodule s2 { belongs-to a { prefix a; } identity root; }`},
-		"11 name equals prefix": {"a": `module a { namespace "a"; prefix a; import m1 { prefix m2; } import m2 { prefix x; } leaf l1 { type m2:foo; } leaf l2 { type x:foo; } }`, "m1": `module m1 { namespace "m1"; prefix m1; typedef foo { type int8; } }`, "m2": `module m2 { namespace "m2"; prefix m2; typedef foo { type string; } }`},
-		"12 if-feature under bit": {"a": `module a { yang-version 1.1; namespace "a"; prefix a; feature f; leaf b { type bits { bit x { if-feature f; } bit y; } } }`},
-		"12 quoted type": {"a": `module a { namespace "a"; prefix a; leaf x { type "int8"; } }`},
-	}
-	for name, files := range sets {
-		files := files
-		op := func(n, e string) (io.Reader, error) {
-			if y, ok := files[n]; ok {
-				return strings.NewReader(y), nil
-			}
-			return nil, nil
+	H := `namespace "urn:m"; prefix m; revision 0; `
+	for name, y := range map[string]string{
+		"9 two deviate add": `module m { ` + H + ` leaf l { type string; } deviation /l { deviate add { units "u"; } deviate add { default "d"; } } }`,
+		"9 two replace":     `module m { ` + H + ` leaf l { type string; units a; default b; } deviation /l { deviate replace { units "u"; } deviate replace { default "d"; } } }`,
+		"9 add+replace":     `module m { ` + H + ` leaf l { type string; default b; } deviation /l { deviate add { units "u"; } deviate replace { default "d"; } } }`,
+	} {
+		m, err := parser.LoadModuleFromString(nil, y)
+		fmt.Println(name, "->", err)
+		if err == nil {
+			l := meta.Find(m, "l").(*meta.Leaf)
+			fmt.Println("   units", l.Units(), "default", l.Default())
 		}
-		func() {
-			defer func() {
-				if r := recover(); r != nil {
-					fmt.Println(name, "PANIC", r)
-				}
-			}()
-			m, err := parser.LoadModule(op, "a")
-			fmt.Println(name, "->", m != nil, err)
-		}()
+	}
+	for _, on := range []bool{true, false} {
+		fs := meta.AllFeaturesOn()
+		if !on {
+			fs = meta.FeaturesOff([]string{"a"})
+		}
+		for name, y := range map[string]string{
+			"5 nested":  `module m { ` + H + ` feature a; container c { if-feature a; leaf l { if-feature "a or"; type string; } } }`,
+			"5 short":   `module m { ` + H + ` feature a; leaf l { if-feature a; if-feature "a or"; type string; } }`,
+			"5 unused":  `module m { ` + H + ` feature a; grouping g { leaf l { if-feature "a or"; type string; } } }`,
+			"6 unknown": `module m { ` + H + ` feature a; leaf l { if-feature nosuch; type string; } }`,
+		} {
+			_, err := parser.LoadModuleFromStringWithOptions(nil, y, parser.Options{Features: fs})
+			fmt.Println(on, name, "->", err)
+		}
 	}
 }
